@@ -128,6 +128,8 @@ def _vm_goal(cid, case, out):
             "badcontent": "RBadContent"}
     for op, r in zip(ops, res):
         a = op[1:]
+        if op[0] == "&":
+            return None
         if op[0] in "CX":
             continue
         if op[0] == "P":
